@@ -334,7 +334,7 @@ func callsTerm(cs [][]call) string {
 
 func runC10(cfg *vh.Config) error {
 	res := vh.NewResult("C10", cfg.Seed)
-	res.Rule = "forced schedules on the real SchemaCache / Codec / package-level Global codec through the verifhook points: type universes (chain, shared sub-schema, mutual+self recursion, disjoint, random graphs of 2-7 messages/enums in 1-3 packages, list and map fields), 2-6 threads of 0-3 calls (Schema / encode / decode / query-decode), schedules uniform / bursts / stall-after-k / all-enter, each drained round-robin; plus the model's two refutation witnesses in every mode; plus real goroutines under the race detector (first use on fresh codecs). non-trivial = distinct (universe, calls, schedule) with at least two threads that make a call"
+	res.Rule = "forced schedules on the real SchemaCache / Codec / package-level Global codec through the verifhook points: type universes (chain, shared sub-schema, mutual+self recursion, disjoint, random graphs of 2-7 messages/enums in 1-3 packages, list and map fields; in codec/global mode a third of the universes also have exposed oneofs and oneof wrapper messages — those cases go to the direct oracle only), 2-6 threads of 0-3 calls (Schema / encode / decode / query-decode), schedules uniform / bursts / stall-after-k / all-enter, each drained round-robin; plus the model's two refutation witnesses in every mode; plus real goroutines under the race detector (first use on fresh codecs). non-trivial = distinct (universe, calls, schedule) with at least two threads that make a call"
 	cf := &vh.CasesFile{
 		Header: "From Coq Require Import String List NArith.\nFrom J5V.model Require Import Conc ConcCorr.",
 		Type:   "c10case",
@@ -356,6 +356,10 @@ func runC10(cfg *vh.Config) error {
 			mode = "global"
 		}
 		u, why := cdesc.GenUniverse(r, fmt.Sprintf("%sc%d", tagBase, i))
+		if mode != "cache" && r.Chance(35) {
+			// exposed oneofs / oneof wrapper messages: outside the Coq model, direct oracle only
+			u, why = cdesc.GenRich(r, fmt.Sprintf("%sc%d", tagBase, i))
+		}
 		if len(cdesc.MsgNodes(u)) == 0 {
 			continue
 		}
@@ -434,6 +438,11 @@ func runC10(cfg *vh.Config) error {
 				}
 			}
 			obs = append(obs, "["+strings.Join(os, ";")+"]")
+		}
+		if cs.U.Rich() {
+			res.Count("oracle only (exposed oneofs / wrapper messages: outside the model)")
+			caseNo++
+			continue
 		}
 		cf.Terms = append(cf.Terms, fmt.Sprintf("C10Case %d %s %s %s %s [%s]", cs.K, cs.U.CoqGraph(), callsTerm(cs.Calls), intsN(run.Sched), intsN(run.Trace), strings.Join(obs, ";")))
 		var resStr [][]string
